@@ -364,6 +364,15 @@ let do_fmt (op : string) (args : string list) : string =
        | Err -> "err" | Panic -> "panic" | Overflow -> "overflow")
   | _ -> "?fmt-args"
 
+(* ---------- C19 CSV ---------- *)
+let do_csv (args : string list) : string =
+  match args with
+  | [h] ->
+      let (rows, st) = read_csv csv_tail_variant (n_of_int 44) utf8_valid (bytes_of_hex h) in
+      let r = String.concat "|" (List.map (fun fs -> String.concat ";" (List.map hex_of_bytes fs)) rows) in
+      (if r = "" then "." else r) ^ " " ^ (match st with SOk -> "ok" | SErr -> "err" | SPanic -> "panic")
+  | _ -> "?csv-args"
+
 (* ---------- dispatch ---------- *)
 let dispatch (op : string) (args : string list) : string =
   match op with
@@ -373,6 +382,7 @@ let dispatch (op : string) (args : string list) : string =
   | "recomp" | "optc" -> do_recomp op args
   | "tilepath" | "static" -> do_http op args
   | "vpl" -> do_vpl args
+  | "csv" -> do_csv args
   | "tileid" | "idcoord" | "pmdir.ser" | "pmdir.de" | "pmdir.find" | "vtblocks" -> do_fmt op args
   | "c12.vt" | "c12.pm" | "c12.vthdr" | "c12.pmhdr" -> do_c12 op args
   | "varint" | "svarint" | "mvt.dec" | "mvt.rt" | "mvt.merge" -> do_mvt op args
